@@ -74,6 +74,9 @@ theorem store_only_grows {s s' : Sys} {op : Op} (hstep : s.step op = some s') : 
     cases hl : s.logs r with
     | none => rw [hl] at hstep; cases hstep
     | some l => rw [hl] at hstep; simp only [Option.some.injEq] at hstep; subst hstep; exact ⟨[], by simp⟩
+  | rebuild src cid ents wh =>
+    obtain ⟨l, _, _, rfl⟩ := rebuild_step hstep
+    exact ⟨[], by simp⟩
 
 /-- the decidable predicate evaluated on the implementation's write log implies the property -/
 theorem checked_predicate_sound (U : List Entry) (h : prefixClosedB U = true) :
